@@ -1,0 +1,19 @@
+//go:build verif
+
+// Contracts for the tvc verifier (/verif). Comment-only: with the `verif` tag off this file does not exist,
+// with it on it adds no code. Syntax: /verif/DESIGN.md appendix A.
+
+package v1beta1
+
+//@ for C10 C11
+
+//@ # a record is a fixed-IP record exactly when SOME allocation of it is fixed — the pod controller (detach instead of
+//@ # delete), the PodENI controller (PodLastSeen stamping) and the record collector (TTL) all decide on this answer
+//@ func PodENISpec.HaveFixedIP
+//@   requires p != nil
+//@   panics
+//@   modifies nothing
+//@   ensures result ==> (exists k int :: 0 <= k && k < len(p.Allocations) && p.Allocations[k].AllocationType.Type == "Fixed")
+//@   ensures !result ==> (forall k int :: 0 <= k && k < len(p.Allocations) ==> p.Allocations[k].AllocationType.Type != "Fixed")
+//@   loop 1 invariant -1 <= rangeindex && rangeindex < len(p.Allocations)
+//@   loop 1 invariant forall k int :: 0 <= k && k <= rangeindex ==> p.Allocations[k].AllocationType.Type != "Fixed"
